@@ -75,3 +75,39 @@ Theorem C03_bytes_array_roundtrip :
   = Some (bss, 93 :: rest).
 Proof. exact bytes_array_roundtrip. Qed.
 Print Assumptions C03_bytes_array_roundtrip.
+
+(* In the context of a statement (Spec/EngTok.v, the engine's statement lexer): a text or character literal is
+   exactly ONE string token whose decoded content is the supplied value; a byte-string literal is one binary-literal
+   token (MySQL / SQLite) or the one string constant whose text is the bytea hex input of the bytes (Postgres).
+   With the seam theorem (C01_lexing_is_compositional_at_safe_seams) this holds wherever the literal is written:
+   after any text whose last token may be followed by a quote or E, and before any text that does not start with a
+   quote character - the literal never ends early and never swallows what follows. *)
+Require Import SQV.Spec.EngTok SQV.Spec.EngBoundary SQV.Proofs.EngTokProofs SQV.Proofs.EngLiteralTokProofs.
+Theorem C03_string_literal_is_one_statement_token :
+  forall b s, nul_ok b s -> eng_tokens b (write_string_quoted b s) = Some [TkStr s].
+Proof. exact string_literal_is_one_token. Qed.
+Print Assumptions C03_string_literal_is_one_statement_token.
+
+Theorem C03_char_literal_is_one_statement_token :
+  forall b c, nul_ok b [c] -> eng_tokens b (write_char_quoted b c) = Some [TkStr [c]].
+Proof. exact char_literal_is_one_token. Qed.
+Print Assumptions C03_char_literal_is_one_statement_token.
+
+Theorem C03_bytes_literal_is_one_statement_token :
+  forall b bs, b <> Postgres -> is_bytes bs -> eng_tokens b (write_bytes b bs) = Some [TkBytes bs].
+Proof. exact bytes_literal_is_one_token. Qed.
+Print Assumptions C03_bytes_literal_is_one_statement_token.
+
+Theorem C03_pg_bytes_literal_is_one_statement_token :
+  forall bs, is_bytes bs ->
+  exists txt, eng_tokens Postgres (write_bytes Postgres bs) = Some [TkStr txt] /\ pg_bytea_in txt = Some bs.
+Proof. exact pg_bytes_literal_is_one_token. Qed.
+Print Assumptions C03_pg_bytes_literal_is_one_statement_token.
+
+Theorem C03_string_literal_in_context :
+  forall b s pre tpre post tpost, nul_ok b s ->
+  eng_tokens b pre = Some tpre -> eng_tokens b post = Some tpost ->
+  join_ok tpre (write_string_quoted b s ++ post) = true -> join_ok [TkStr s] post = true ->
+  eng_tokens b (pre ++ write_string_quoted b s ++ post) = Some (tpre ++ TkStr s :: tpost).
+Proof. exact string_literal_in_context. Qed.
+Print Assumptions C03_string_literal_in_context.
